@@ -696,10 +696,14 @@ def panic_guarded(site):
     if kind == 'index' and len(t.get('args', [])) > 1:
         rng = b.pexpr_operand(t['args'][1])
         end = None
-        if rng[0] == 'agg' and rng[1].endswith('Range'):
+        if rng[0] == 'agg' and (rng[1].endswith('Range') or rng[1].endswith('RangeFrom')):
             for n, v in rng[3]:
                 if n == 'end' and v[0] == 'const':
                     end = int(v[1])
+            if rng[1].endswith('RangeFrom'):     # x[N..] needs len >= N
+                for n, v in rng[3]:
+                    if n == 'start' and v[0] == 'const':
+                        end = int(v[1])
         elif rng[0] == 'const':
             try:
                 end = int(rng[1]) + 1
